@@ -115,7 +115,7 @@ SPECS = {
     "C13": S(profiles=[("faults", 0.35), ("gfaults", 0.25), ("gaps", 0.2), ("cycles", 0.2)], projection="PChain", flags=True,
              requires=CORE + ["ErrCauseCheck"],
              rule="non-trivial: some operation returned an error (each distinct chain shape counts)"),
-    "C14": S(profiles=[("rejections", 0.6), ("core-mix", 0.4)], projection="PVerdict",
+    "C14": S(profiles=[("rejections", 0.5), ("core-mix", 0.25), ("decor", 0.25)], projection="PVerdict",
              requires=CORE + ["GoTypes", "Parse", "RunRaw"],
              chk="fun c obs => chk_C14 (cs_hist c) obs",
              rule="non-trivial: the history contains a malformed input (bad op)"),
